@@ -19,6 +19,9 @@ import (
 
 	"github.com/ipfs/go-cid"
 	"github.com/ipld/go-ipld-prime"
+	"github.com/ipld/go-ipld-prime/datamodel"
+	"github.com/ipld/go-ipld-prime/fluent/qp"
+	"github.com/ipld/go-ipld-prime/node/basicnode"
 	cidlink "github.com/ipld/go-ipld-prime/linking/cid"
 	"github.com/ipld/go-ipld-prime/storage/memstore"
 	"github.com/ipni/go-libipni/dagsync/ipnisync"
@@ -312,6 +315,30 @@ func (p *Publisher) BuildEntries(n int, tag int) []cid.Cid {
 			ch.Next = cidlink.Link{Cid: out[i-1]}
 		}
 		nd, err := ch.ToNode()
+		if err != nil {
+			panic(err)
+		}
+		l, err := p.Lsys.Store(ipld.LinkContext{}, p.LinkProto, nd)
+		if err != nil {
+			panic(err)
+		}
+		out = append(out, l.(cidlink.Link).Cid)
+	}
+	return out
+}
+
+// BuildGenericChain stores n generic map nodes, each linking to its predecessor under a key that is neither
+// an advertisement's nor an entry chunk's link field (the shape of a HAMT path: only an explore-all selector
+// follows it, and a block hook cannot name a "next" CID). Returns the CIDs, deepest node first.
+func (p *Publisher) BuildGenericChain(n int, tag int) []cid.Cid {
+	var out []cid.Cid
+	for i := 0; i < n; i++ {
+		nd, err := qp.BuildMap(basicnode.Prototype.Map, 3, func(ma datamodel.MapAssembler) {
+			qp.MapEntry(ma, "Bucket", qp.String(fmt.Sprintf("g-%d-%d-%d", p.Idx, tag, i)))
+			if i > 0 {
+				qp.MapEntry(ma, "Child", qp.Link(cidlink.Link{Cid: out[i-1]}))
+			}
+		})
 		if err != nil {
 			panic(err)
 		}
